@@ -749,8 +749,8 @@ def binding_selftest(stats_cases, stop_cases):
 
 
 # ---------------------------------------------------------------------------
-# spec growth beside C19 (never a violation): RunningCovariance / RunningCovarianceMatrix step by step
-# against the rational machine SpecCov of RunStats.tla
+# RunningCovariance / RunningCovarianceMatrix step by step against the rational machine SpecCov of
+# RunStats.tla (part of C19: "covariance and covariance matrix")
 
 COV_MAPS = [("k", Fraction(0), Fraction(1), float), ("k:int", Fraction(0), Fraction(1), int),
             ("5+k/128", Fraction(5), Fraction(1, 128), float)]
@@ -774,11 +774,12 @@ def cov_jobs(thorough):
 
 def check_cov_case(c):
     """Step the real RunningCovariance (every pair i <= j) and RunningCovarianceMatrix through the emitted calls;
-    after every call compare count, xmean, ymean, C, covar, sample_covar, covar_matrix, sample_covar_matrix with
-    the spec's rationals.  Returns (steps, comparisons, leads, worst ratio error/tolerance)."""
+    after EVERY call (so also between chunked feeds) read count, xmean, ymean, C, covar, sample_covar, covar_matrix,
+    sample_covar_matrix and compare with the spec's rationals.
+    Returns (steps, comparisons, mismatches (list of dicts, as for the stats cases), worst error/tolerance)."""
     _, RC, RCM = real_classes()
     K = c["k"]
-    leads, ncmp, steps, worst = [], 0, 0, 0.0
+    bad, ncmp, steps, worst = [], 0, 0, 0.0
     for name, off, sc, typ in COV_MAPS:
         X = [tuple(typ(off + sc * k) for k in row) for row in c["xs"]]
         A = [max(abs(float(r[i])) for r in X) for i in range(K)]
@@ -786,8 +787,12 @@ def check_cov_case(c):
         rc = {(i, j): RC() for i in range(K) for j in range(i, K)}
         rcm = RCM(K)
         pos = 0
+        t = -1
 
-        def cmp(what, got, want, tol, t):
+        def where():
+            return "%s/after call %d of %r" % (name, t + 1, c["calls"])
+
+        def cmp(cls, q, idx, got, want, tol):
             nonlocal ncmp, worst
             ncmp += 1
             g = _num(got)
@@ -796,8 +801,14 @@ def check_cov_case(c):
             if err is not None and err / tol > worst:
                 worst = err / tol
             if err is None or err > tol:
-                leads.append("%s after call %d of %r on xs=%r (map %s): got %r, the spec says %s (tolerance %.3g)"
-                             % (what, t + 1, c["calls"], c["xs"], name, got, float(want), tol))
+                bad.append(dict(where=where(), cls=cls, quantity=q, index=idx, got=g if g is not None else repr(got),
+                                want=float(want), tolerance=tol))
+
+        def cmp_count(cls, idx, got, n):
+            nonlocal ncmp
+            ncmp += 1
+            if got != n:
+                bad.append(dict(where=where(), cls=cls, quantity="count", index=idx, got=repr(got), want=n))
 
         try:
             for t, L in enumerate(c["calls"]):
@@ -819,45 +830,48 @@ def check_cov_case(c):
                 n = snap[0][0]["n"]
                 m = rcm.covar_matrix
                 sm = rcm.sample_covar_matrix if n >= 2 else None
-                ncmp += 1
-                if rcm.count != n:
-                    leads.append("RunningCovarianceMatrix.count after call %d of %r: got %r, the spec says %d" % (t + 1, c["calls"], rcm.count, n))
+                cmp_count("RunningCovarianceMatrix", None, rcm.count, n)
                 for i in range(K):
                     for j in range(K):
                         e = snap[i][j]
                         tolc = COV_CC * n * EPS * (A[i] * D[j] + A[j] * D[i]) / 2 + 1e-300
                         want = sc * sc * _rat(e["covar"])
-                        cmp("RunningCovarianceMatrix.covar_matrix[%d,%d]" % (i, j), m[i, j], want, tolc, t)
+                        cmp("RunningCovarianceMatrix", "covar_matrix", [i, j], m[i, j], want, tolc)
                         if sm is not None:
-                            cmp("RunningCovarianceMatrix.sample_covar_matrix[%d,%d]" % (i, j), sm[i, j], sc * sc * _rat(e["scov"]),
-                                tolc * n / (n - 1), t)
+                            cmp("RunningCovarianceMatrix", "sample_covar_matrix", [i, j], sm[i, j], sc * sc * _rat(e["scov"]),
+                                tolc * n / (n - 1))
                         if i > j:
                             continue
                         a = rc[i, j]
-                        ncmp += 1
-                        if a.count != n:
-                            leads.append("RunningCovariance.count after call %d of %r: got %r, the spec says %d" % (t + 1, c["calls"], a.count, n))
-                        cmp("RunningCovariance(%d,%d).xmean" % (i, j), a.xmean, off + sc * _rat(e["xm"]), COV_CM * n * EPS * A[i] + 1e-300, t)
-                        cmp("RunningCovariance(%d,%d).ymean" % (i, j), a.ymean, off + sc * _rat(e["ym"]), COV_CM * n * EPS * A[j] + 1e-300, t)
-                        cmp("RunningCovariance(%d,%d).C" % (i, j), a.C, sc * sc * _rat(e["c"]), tolc * n, t)
-                        cmp("RunningCovariance(%d,%d).covar" % (i, j), a.covar, want, tolc, t)
-                        cmp("RunningCovarianceMatrix.rcs[%d,%d].C" % (i, j), rcm.rcs[i, j].C, sc * sc * _rat(e["c"]), tolc * n, t)
+                        cmp_count("RunningCovariance", [i, j], a.count, n)
+                        cmp("RunningCovariance", "xmean", [i, j], a.xmean, off + sc * _rat(e["xm"]), COV_CM * n * EPS * A[i] + 1e-300)
+                        cmp("RunningCovariance", "ymean", [i, j], a.ymean, off + sc * _rat(e["ym"]), COV_CM * n * EPS * A[j] + 1e-300)
+                        cmp("RunningCovariance", "C", [i, j], a.C, sc * sc * _rat(e["c"]), tolc * n)
+                        cmp("RunningCovariance", "covar", [i, j], a.covar, want, tolc)
+                        cmp("RunningCovarianceMatrix", "rcs.C", [i, j], rcm.rcs[i, j].C, sc * sc * _rat(e["c"]), tolc * n)
                         if n >= 2:
-                            cmp("RunningCovariance(%d,%d).sample_covar" % (i, j), a.sample_covar, sc * sc * _rat(e["scov"]),
-                                tolc * n / (n - 1), t)
-        except Exception as ex:  # noqa
-            leads.append("raised %s: %s on xs=%r calls=%r (map %s)" % (type(ex).__name__, ex, c["xs"], c["calls"], name))
-    return steps, ncmp, leads[:3], len(leads), worst
+                            cmp("RunningCovariance", "sample_covar", [i, j], a.sample_covar, sc * sc * _rat(e["scov"]),
+                                tolc * n / (n - 1))
+        except Exception as ex:  # noqa  the real code raised where a result is demanded
+            bad.append(dict(where=where(), cls="*", quantity="raised", index=None,
+                            got="%s: %s" % (type(ex).__name__, ex), want="a result"))
+    return steps, ncmp, bad, worst
 
 
-def beyond_property(rep, ext_jobs, ext_results):
-    """RunningCovariance / RunningCovarianceMatrix against SpecCov.  Only notes and rep.extra - never a violation,
-    never an exception (the caller wraps this)."""
+def _chk_cov(c):
+    st_, nc, bad, w = check_cov_case(c)
+    return st_, nc, bad[:3], len(bad), w
+
+
+def covariance_machine(rep, ext_jobs, ext_results):
+    """RunningCovariance / RunningCovarianceMatrix against SpecCov (C19 names covariance and covariance matrix): every
+    emitted behaviour is stepped call by call on the real classes; a mismatch is a C19 violation.  Machinery trouble in
+    here raises (the caller turns it into a note).  Returns the number of violations."""
     import copy
     out = dict(what="RunningCovariance / RunningCovarianceMatrix (update, update_from_it, count, xmean, ymean, C, covar, "
-                    "sample_covar, covar_matrix, sample_covar_matrix) stepped call by call against the exact-rational machine "
-                    "SpecCov of RunStats.tla", tlc_runs=[])
-    cases, leads = [], []
+                    "sample_covar, covar_matrix, sample_covar_matrix) stepped call by call, read after every call, against "
+                    "the exact-rational machine SpecCov of RunStats.tla", tlc_runs=[])
+    cases = []
     for (label, emit, tkw, expect, kw), r in zip(ext_jobs, ext_results):
         if isinstance(r, BaseException):
             raise r
@@ -865,45 +879,55 @@ def beyond_property(rep, ext_jobs, ext_results):
         if expect is not None:
             out["selftest_buggy_variant_rejected_by"] = r.violated
             if r.violated is None or r.violated not in expect.split("|"):
-                leads.append("spec self-test: Variant=oldmean is not rejected by the SpecCov invariants (got %r)" % (r.violated,))
+                raise tlc.TLCError("self-test failed: Variant=oldmean is not rejected by the SpecCov invariants (got %r)" % (r.violated,))
             continue
+        rep.add_tlc(label, r)
         if r.violated:
-            leads.append("TLC: invariant %s of SpecCov violated in %s (model-level lead): %r" % (r.violated, label, r.trace[-1:]))
+            raise tlc.TLCError("TLC: invariant %s of SpecCov violated in %s - the model is wrong or the algebra fails: %r"
+                               % (r.violated, label, r.trace[-1:] if r.trace else None))
         if emit:
             cases.extend(r.cases)
-            # non-vacuity: both kinds of call occur in what was emitted
-            if not any(0 in c["calls"] for c in r.cases) or not any(max(c["calls"]) >= 2 for c in r.cases):
-                leads.append("vacuous: %s emitted no update / no update_from_it call" % label)
+            # non-vacuity: both kinds of call occur in what was emitted, and a read separates two chunked feeds
+            if not any(0 in c["calls"] for c in r.cases) or not any(
+                    any(x >= 2 and y >= 1 for x, y in zip(c["calls"], c["calls"][1:])) for c in r.cases):
+                raise tlc.TLCError("vacuous: %s emitted no update / no consecutive update_from_it calls" % label)
     out["states"] = sum(t["distinct"] for t in out["tlc_runs"])
     out["transitions"] = sum(t["generated"] for t in out["tlc_runs"])
     out["emitted_behaviours"] = len(cases)
-    if cases:
-        # binding self-test: a corrupted snapshot must be noticed
-        d = copy.deepcopy([c for c in cases if c["k"] == 2 and c["n"] >= 3][0])
-        d["trace"][-1][0][1]["c"][0] += 1
-        d["trace"][-1][0][1]["covar"][0] += 1
-        out["corrupted_snapshot_rejected"] = check_cov_case(d)[3] > 0
-        if not out["corrupted_snapshot_rejected"]:
-            leads.append("binding self-test: a corrupted co-moment in an emitted snapshot was not noticed by the replay")
-    steps = ncmp = nlead = 0
+    if not cases:
+        raise tlc.TLCError("SpecCov emitted no behaviour")
+    # binding self-test: a corrupted snapshot must be noticed (judged below, only if the code conforms)
+    d = copy.deepcopy([c for c in cases if c["k"] == 2 and c["n"] >= 3][0])
+    d["trace"][-1][0][1]["c"][0] += 1
+    d["trace"][-1][0][1]["covar"][0] += 1
+    out["corrupted_snapshot_rejected"] = len(check_cov_case(d)[2]) > 0
+    steps = ncmp = nbad = 0
     worst = 0.0
-    for st_, nc, ld, nl, w in common.pmap(check_cov_case, cases):
+    shown = 0
+    for c, (st_, nc, bad, nb, w) in zip(cases, common.pmap(_chk_cov, cases)):
         steps += st_
         ncmp += nc
-        nlead += nl
+        nbad += nb
         worst = max(worst, w)
-        leads.extend(ld)
+        sample = None
+        if shown < 1 and c["k"] == 2 and len(c["calls"]) == 2 and min(c["calls"]) >= 1:
+            shown += 1
+            sample = c
+        rep.add_case(["cov", c["xs"], c["calls"]], traces=len(COV_MAPS), sample=sample)
+        for b in bad:
+            rep.add_violation(dict(c, failing=b), _what(b), key=_key(b, "cov"))
     out.update(replayed_behaviours=len(cases), maps=[m[0] for m in COV_MAPS], steps_compared=steps, comparisons=ncmp,
-               mismatches=nlead, worst_fraction_of_tolerance=float("%.3g" % worst),
+               mismatches=nbad, worst_fraction_of_tolerance=float("%.3g" % worst),
                tolerance="mean %g*n*eps*max|x|; C %g*n^2*eps*(A_i*D_j + A_j*D_i)/2, covar that / n" % (COV_CM, COV_CC))
-    rep.extra["beyond_property"] = out
-    for ld in leads[:8]:
-        rep.note("lead (outside C19): " + ld)
-    if len(leads) > 8:
-        rep.note("lead (outside C19): ... and %d more mismatch(es) of the same extension" % (len(leads) - 8))
-    rep.note("beyond C19 (spec growth): SpecCov - %d TLC states, %d emitted behaviours replayed call by call on RunningCovariance / "
-             "RunningCovarianceMatrix under %d maps, %d steps, %d comparisons, %d mismatch(es), worst error/tolerance %.3g"
-             % (out["states"], len(cases), len(COV_MAPS), steps, ncmp, nlead, worst))
+    rep.extra["covariance_machine"] = out
+    rep.note("covariance machine (SpecCov): %d TLC states, %d emitted behaviours replayed call by call on RunningCovariance / "
+             "RunningCovarianceMatrix under %d maps, %d steps (every one followed by a read of all accessors), %d comparisons, "
+             "%d mismatch(es), worst error/tolerance %.3g" % (out["states"], len(cases), len(COV_MAPS), steps, ncmp, nbad, worst))
+    if not out["corrupted_snapshot_rejected"]:
+        if nbad == 0:
+            raise RuntimeError("binding self-test: a corrupted co-moment in an emitted snapshot was not noticed by the replay")
+        rep.note("covariance-machine binding self-test inconclusive (the code under test deviates, see the violations)")
+    return nbad
 
 
 def _merge_worst(into, w):
@@ -936,7 +960,8 @@ def run(rep):
                 "'allperm' model); SpecStop: every (rtol, tol_scale, min_samples, max_samples) of the grid x every scripted "
                 "sample sequence; a case is non-trivial when n >= 2 (stats) / not an exact tie (stop); distinct = distinct "
                 "(history, calls, permutation) resp. (parameters, drawn sequence); each is replayed under 4-5 affine maps x "
-                "4 ways of feeding (stats) resp. 3 scales (stop)")
+                "4 ways of feeding (stats) resp. 3 scales (stop); SpecCov: every history of pairs / triples up to MaxLen x every "
+                "cut into calls, replayed call by call with all accessors read after every call, under 3 maps")
     rep.assumptions = [
         "TLC proves the algebra (running update = whole-sample formula, order/chunk independence, stop-machine invariants) "
         "only over bounded small integers; floating-point accuracy is decided by the harness against the model's exact "
@@ -1035,12 +1060,12 @@ def run(rep):
         name = "MC_RS_" + "".join(ch if ch.isalnum() else "_" for ch in label)
         return run_model(name, machine, emit=emit, tlc_kw=tkw, **kw)
 
-    # spec growth beside C19 (SpecCov): its TLC runs share the pool; whatever goes wrong in them is kept as a value
+    # the covariance machine (SpecCov): its TLC runs share the pool; a machinery failure in them is kept as a value
     try:
         ext_jobs = cov_jobs(thorough)
     except Exception as e:  # noqa
         ext_jobs = []
-        rep.note("beyond-property extension failed: %s: %s" % (type(e).__name__, e))
+        rep.note("covariance-machine extension failed (machinery): %s: %s" % (type(e).__name__, e))
 
     def _run_ext(j):
         try:
@@ -1209,12 +1234,12 @@ def run(rep):
             rep.note("calibration: worst |error|/tolerance = %.3g exceeds the intended head-room %.2g (no violation)" % (w, MAX_FRACTION))
     one_shot_iterator_probe(rep)
     t2 = time.time()
-    try:
+    try:                      # only machinery exceptions end up here; mismatches are violations
         if ext_jobs:
-            beyond_property(rep, ext_jobs, ext_results)
+            covariance_machine(rep, ext_jobs, ext_results)
     except Exception as e:  # noqa
-        rep.note("beyond-property extension failed: %s: %s" % (type(e).__name__, str(e)[:300]))
-    rep.extra["phase_wall_s"]["beyond_property_replay"] = round(time.time() - t2, 1)
+        rep.note("covariance-machine extension failed (machinery): %s: %s" % (type(e).__name__, str(e)[:300]))
+    rep.extra["phase_wall_s"]["covariance_machine_replay"] = round(time.time() - t2, 1)
 
 
 def one_shot_iterator_probe(rep):
@@ -1246,6 +1271,8 @@ def replay(rep, case):
         _, bad, drift, _ = check_noisy_case((case["seed"], case["idx"]))
     elif kind == "long":
         _, bad, drift, _ = check_long_case((case["seed"], case["idx"]))
+    elif kind == "cov":
+        bad = check_cov_case(case)[2]
     else:
         raise RuntimeError("unknown case kind %r" % (kind,))
     for b in bad:
